@@ -123,3 +123,227 @@ pub fn replay<D: CurveDrv>(trans: impl Iterator<Item = Value>, big: bool) -> Rep
     }
     rep
 }
+
+// ---------------------------------------------------------------------------------------
+// Conformance B at full size: calls of the real (de)serializers on shipped curves, validated by
+// spec/trace/Trace_Ser.tla (library format, or the ZCash format of curves/bls12_381).
+
+/// cube root in the field B (a = 0 curves: x = cbrt(y^2 - b) gives points with a chosen y); None when there is none or
+/// the 3-Sylow subgroup is too large for the table-free search used here
+fn cube_root<B: Elem>(c: &B) -> Option<B> {
+    use num_bigint::BigUint;
+    use num_traits::{One, Zero as _};
+    if c.is_zero() { return Some(*c); }
+    let deg: usize = B::shape().iter().product::<usize>().max(1);
+    let q = B::modulus().pow(deg as u32);
+    let qm1 = &q - BigUint::one();
+    let three = BigUint::from(3u32);
+    let pw = |x: &B, e: &BigUint| -> B { x.pow(e.to_u64_digits()) };
+    if (&qm1 % &three) != BigUint::zero() {
+        // every element is a cube: x = c^(3^-1 mod (q-1))
+        let inv = three.modinv(&qm1)?;
+        return Some(pw(c, &inv));
+    }
+    if !pw(c, &(&qm1 / &three)).is_one() { return None; }
+    let (mut s, mut t) = (0u32, qm1.clone());
+    while (&t % &three).is_zero() { t /= &three; s += 1; }
+    if s > 8 { return None; }
+    // generator of the 3-Sylow subgroup
+    let mut g = None;
+    for k in 2u64..200 { let cand = B::from(k); let gt = pw(&cand, &t); if !pw(&gt, &three.pow(s - 1)).is_one() { g = Some(gt); break; } }
+    let g = g?;
+    let u = three.modinv(&t)?;                       // 3u = 1 + m t
+    let x0 = pw(c, &u);
+    let e = x0 * x0 * x0 * c.inverse()?;             // in the 3-Sylow subgroup, a cube there
+    // find j with g^(3j) = e^-1, then x = x0 g^j
+    let einv = e.inverse()?;
+    let g3 = g * g * g;
+    let mut acc = B::one(); let mut gj = B::one();
+    for _ in 0..3u64.pow(s) { if acc == einv { let x = x0 * gj; return if x * x * x == *c { Some(x) } else { None }; } acc *= g3; gj *= g; }
+    None
+}
+
+pub fn record_big<D: CurveDrv>(cfg: &str, seed: u64, n: usize, out: &mut dyn std::io::Write) -> Report {
+    use ark_ec::{CurveConfig, PrimeGroup};
+    use ark_ff::{PrimeField, Zero, One};
+    use num_bigint::BigUint;
+    let mut rep = Report::default();
+    let mut rng = Rng(seed ^ 0x5E12);
+    let zcash = cfg == "c_bls12_381_g1" || cfg == "c_bls12_381_g2";
+    let p = D::B::modulus();
+    let r_mod: BigUint = D::S::MODULUS.into();
+    let h = limbs_to_biguint(<<D::G as CurveGroup>::Config as CurveConfig>::COFACTOR);
+    let mut hdr = D::params(true);
+    hdr["op"] = json!("reset"); hdr["cfg"] = json!(cfg); hdr["seed"] = json!(seed); hdr["format"] = json!(if zcash { "zcash" } else { "ark" });
+    hdr["p"] = num_to_json(&p, true); hdr["nlimbs"] = json!(D::B::nlimbs()); hdr["lv"] = json!(D::B::levels(true));
+    hdr["r"] = num_to_json(&r_mod, true); hdr["h"] = num_to_json(&h, true);
+    writeln!(out, "{}", hdr).unwrap();
+    let gen: D::G = <D::G as PrimeGroup>::generator();
+    let deg: usize = D::B::shape().iter().product::<usize>().max(1);
+    // base-field elements with structure: small, in a subfield, single non-zero coordinate, p-1 ...
+    let special_elem = |rng: &mut Rng| -> D::B {
+        let mut c: Vec<BigUint> = vec![BigUint::from(0u32); deg];
+        match rng.below(5) {
+            0 => { c[0] = BigUint::from(rng.below(20)); }
+            1 => { c[0] = &p - BigUint::from(rng.below(20) + 1); }
+            2 => { let i = rng.below(deg as u64) as usize; c[i] = BigUint::from(rng.below(20) + 1); }
+            3 => { let i = rng.below(deg as u64) as usize; c[i] = &p - BigUint::from(rng.below(20) + 1); }
+            _ => { for x in c.iter_mut() { *x = rng.biguint_below(&p); } let i = rng.below(deg as u64) as usize; c[i] = BigUint::from(0u32); }
+        }
+        D::B::from_coords(&c)
+    };
+    let params = D::params(true);
+    let a_is_zero = D::KIND == "sw" && params["a"] == D::B::zero().to_abs(true).unwrap();
+    let coeff_b = if D::KIND == "sw" { Some(D::B::from_abs(&params["b"], true)) } else { None };
+    // a curve point of one of several classes
+    let point = |rng: &mut Rng| -> Aff<D> {
+        match rng.below(10) {
+            0 => Aff::<D>::zero(),
+            1 => gen.into_affine(),
+            2 => gen.mul_bigint([rng.below(50)]).into_affine(),
+            3 | 4 => gen.mul_bigint(rng.biguint_below(&r_mod).to_u64_digits()).into_affine(),
+            5 | 6 => { for _ in 0..200 { if let Some(a) = D::from_coord(crate::curve::random_base_pub::<D::B>(rng), rng.coin()) { return a; } } gen.into_affine() }
+            7 => { for _ in 0..200 { if let Some(a) = D::from_coord(special_elem(rng), rng.coin()) { return a; } } gen.into_affine() }
+            _ => {
+                // a = 0: choose the OTHER coordinate (y) with structure and solve for x
+                if let (true, Some(b)) = (a_is_zero, coeff_b) {
+                    for _ in 0..60 {
+                        let y = special_elem(rng);
+                        if let Some(x) = cube_root(&(y * y - b)) {
+                            let mut j = json!([x.to_abs(true).unwrap(), y.to_abs(true).unwrap()]);
+                            if rng.coin() { j[1] = (-y).to_abs(true).unwrap(); }
+                            let a = D::aff(&j, true);
+                            if D::aff_on_curve(&a) { return a; }
+                        }
+                    }
+                }
+                gen.mul_bigint([rng.below(50) + 1]).into_affine()
+            }
+        }
+    };
+    let ser = |a: &Aff<D>, c: Compress| -> Vec<u8> { let mut b = vec![]; a.serialize_with_mode(&mut b, c).expect("serialize"); b };
+    let mut step = 0;
+    while step < n {
+        step += 1;
+        let compressed = rng.coin();
+        let c = if compressed { Compress::Yes } else { Compress::No };
+        let choice = rng.below(100);
+        if choice < 30 {
+            // serialize a point through one of the entry points
+            let a = point(&mut rng);
+            let pj = D::aff_abs(&a, true).unwrap();
+            let via = *rng.pick(&["affine_serialize_with_mode", "affine_shorthand", "projective_rescaled", "exact_size_buffer"]);
+            rep.op("ser_point");
+            intent(&json!({"machine": "ser", "cfg": cfg, "seed": seed, "step": step, "event": {"op": "ser_point", "P": pj, "compressed": compressed, "via": via}}));
+            let res = guarded(|| -> (Vec<u8>, usize) { match via {
+                "affine_serialize_with_mode" => (ser(&a, c), a.serialized_size(c)),
+                "affine_shorthand" => { let mut b = vec![]; if compressed { a.serialize_compressed(&mut b) } else { a.serialize_uncompressed(&mut b) }.expect("serialize"); (b, if compressed { a.compressed_size() } else { a.uncompressed_size() }) }
+                "projective_rescaled" => { let mut r2 = Rng(seed ^ step as u64); let lam = loop { let l = crate::curve::random_base_pub::<D::B>(&mut r2); if !l.is_zero() { break l } };
+                                           let g = D::proj(&pj, &lam, true); let mut b = vec![]; g.serialize_with_mode(&mut b, c).expect("serialize"); (b, g.serialized_size(c)) }
+                _ => { let size = a.serialized_size(c); let mut buf = vec![0u8; size]; let mut w: &mut [u8] = &mut buf; a.serialize_with_mode(&mut w, c).expect("fits the advertised size"); assert!(w.is_empty(), "wrote fewer bytes than advertised"); (buf, size) }
+            } });
+            rep.evaluations += 1;
+            let mut ev = json!({"op": "ser_point", "P": pj, "compressed": compressed, "via": via});
+            match res { Ok((b, size)) => { ev["bytes"] = bytes_json(&b); ev["size"] = json!(size); if !a.is_zero() { rep.nontrivial.insert(format!("ser:{step}")); } } Err(e) => { ev["panic"] = json!(e); } }
+            rep.sample(&json!({"op": "ser_point", "via": via, "compressed": compressed}));
+            writeln!(out, "{}", ev).unwrap();
+        } else if choice < 80 {
+            // deserialize crafted bytes: a real encoding, possibly mutated
+            let a = point(&mut rng);
+            let mut bytes = guarded(|| ser(&a, c)).unwrap_or_default();
+            if bytes.is_empty() { continue }
+            let len = bytes.len();
+            let flag_byte = if zcash { 0 } else { len - 1 };
+            let m = rng.below(16);
+            match m {
+                0 | 1 | 2 => {}
+                3 => { bytes[flag_byte] ^= 0x80; }
+                4 => { bytes[flag_byte] ^= 0x40; }
+                5 => { bytes[flag_byte] ^= 0x20; }
+                6 => { let i = rng.below(len as u64) as usize; bytes[i] ^= 1 << rng.below(8); }
+                7 => { bytes.pop(); }
+                8 => { bytes.push(rng.next() as u8); }
+                9 => { // a coordinate that is not reduced: add p to the first base-field coordinate (if it still fits)
+                       let w = len / (deg * if compressed { 1 } else { 2 });
+                       if w > 0 { let chunk: Vec<u8> = bytes[..w].to_vec();
+                           let (v, top) = if zcash { (BigUint::from_bytes_be(&{ let mut c2 = chunk.clone(); c2[0] &= 0x1f; c2 }), chunk[0] & 0xe0) } else { (BigUint::from_bytes_le(&chunk), 0) };
+                           let v2 = v + &p;
+                           let enc = if zcash { v2.to_bytes_be() } else { v2.to_bytes_le() };
+                           if enc.len() <= w { let mut nb = vec![0u8; w]; if zcash { nb[w - enc.len()..].copy_from_slice(&enc); nb[0] |= top; } else { nb[..enc.len()].copy_from_slice(&enc); } bytes[..w].copy_from_slice(&nb); } } }
+                10 => { let i = if zcash { len - 1 } else { 0 }; bytes[i] = bytes[i].wrapping_add(1); }          // x + 1 (compressed) / changes a low byte
+                11 => { if !compressed { let i = if zcash { len - 1 } else { len / 2 }; bytes[i] = bytes[i].wrapping_add(1); } }   // y + 1: off the curve
+                12 => { bytes = vec![0u8; len]; bytes[flag_byte] = if zcash { if compressed { 0xc0 } else { 0x40 } } else { 0x40 }; } // canonical infinity
+                13 => { bytes[flag_byte] |= 0x40; }                                                               // infinity flag on a finite point
+                14 => { bytes = rng.bytes(len); }
+                _ => { bytes = vec![0xffu8; len]; }
+            }
+            let validate = rng.coin();
+            let v = if validate { Validate::Yes } else { Validate::No };
+            let via = *rng.pick(&["affine_deserialize_with_mode", "projective_deserialize_with_mode", "affine_shorthand"]);
+            rep.op("deser_point");
+            intent(&json!({"machine": "ser", "cfg": cfg, "seed": seed, "step": step, "event": {"op": "deser_point", "bytes": bytes_json(&bytes), "compressed": compressed, "validate": validate, "via": via}}));
+            let run = |v: Validate, via: &str| -> Result<Option<(Aff<D>, usize)>, String> { guarded(|| { let mut r: &[u8] = &bytes; match via {
+                "affine_deserialize_with_mode" => Aff::<D>::deserialize_with_mode(&mut r, c, v).ok().map(|p| (p, bytes.len() - r.len())),
+                "projective_deserialize_with_mode" => D::G::deserialize_with_mode(&mut r, c, v).ok().map(|g| (g.into_affine(), bytes.len() - r.len())),
+                _ => { let res = match (compressed, v) { (true, Validate::Yes) => Aff::<D>::deserialize_compressed(&mut r), (true, Validate::No) => Aff::<D>::deserialize_compressed_unchecked(&mut r),
+                                                         (false, Validate::Yes) => Aff::<D>::deserialize_uncompressed(&mut r), (false, Validate::No) => Aff::<D>::deserialize_uncompressed_unchecked(&mut r) };
+                       res.ok().map(|p| (p, bytes.len() - r.len())) } } }) };
+            rep.evaluations += 1;
+            let mut ev = json!({"op": "deser_point", "bytes": bytes_json(&bytes), "compressed": compressed, "validate": validate, "via": via, "mutation": m, "Q": [], "W": [], "ok": false, "n": 0});
+            match run(v, via) {
+                Ok(Some((q, used))) => { ev["ok"] = json!(true); ev["n"] = json!(used); match D::aff_abs(&q, true) { Ok(j) => { ev["Q"] = j; } Err(e) => { ev["panic"] = json!(e); } } rep.nontrivial.insert(format!("de:{step}")); }
+                Ok(None) => {
+                    // witness for a rejection by validation: what the bytes decode to without it
+                    if validate { if let Ok(Some((w, _))) = run(Validate::No, "affine_deserialize_with_mode") { if let Ok(j) = D::aff_abs(&w, true) { ev["W"] = j; } } }
+                }
+                Err(e) => { ev["panic"] = json!(e); }
+            }
+            rep.sample(&json!({"op": "deser_point", "via": via, "mutation": m, "ok": ev["ok"]}));
+            writeln!(out, "{}", ev).unwrap();
+        } else if choice < 90 {
+            // field element with flags
+            let x = if rng.coin() { special_elem(&mut rng) } else { crate::curve::random_base_pub::<D::B>(&mut rng) };
+            let (kind, mask): (&str, u64) = *rng.pick(&[("none", 0u64), ("sw", 0), ("sw", 64), ("sw", 128), ("te", 0), ("te", 128)]);
+            rep.op("ser_field");
+            let res = guarded(|| -> (Vec<u8>, usize) { let mut b = vec![]; match kind {
+                "none" => { x.serialize_with_flags(&mut b, EmptyFlags).expect("serialize"); (b, x.serialized_size_with_flags::<EmptyFlags>()) }
+                "sw" => { x.serialize_with_flags(&mut b, sw_flag(mask)).expect("serialize"); (b, x.serialized_size_with_flags::<SWFlags>()) }
+                _ => { x.serialize_with_flags(&mut b, te_flag(mask)).expect("serialize"); (b, x.serialized_size_with_flags::<TEFlags>()) } } });
+            rep.evaluations += 1;
+            let mut ev = json!({"op": "ser_field", "v": x.to_abs(true).unwrap(), "kind": kind, "mask": mask});
+            match res { Ok((b, size)) => { ev["bytes"] = bytes_json(&b); ev["size"] = json!(size); rep.nontrivial.insert(format!("serf:{step}")); } Err(e) => { ev["panic"] = json!(e); } }
+            writeln!(out, "{}", ev).unwrap();
+        } else {
+            // decode a field element from crafted bytes
+            let x = if rng.coin() { special_elem(&mut rng) } else { crate::curve::random_base_pub::<D::B>(&mut rng) };
+            let kind = *rng.pick(&["none", "sw", "te"]);
+            let mut bytes = vec![];
+            match kind { "none" => x.serialize_with_flags(&mut bytes, EmptyFlags), "sw" => x.serialize_with_flags(&mut bytes, sw_flag(*rng.pick(&[0u64, 64, 128]))), _ => x.serialize_with_flags(&mut bytes, te_flag(*rng.pick(&[0u64, 128]))) }.expect("serialize");
+            let len = bytes.len();
+            match rng.below(10) {
+                0 | 1 => {}
+                2 => { bytes[len - 1] ^= 0x80; } 3 => { bytes[len - 1] ^= 0x40; } 4 => { bytes[len - 1] |= 0xc0; } 5 => { bytes[len - 1] ^= 0x20; }
+                6 => { bytes.pop(); } 7 => { bytes = vec![0xffu8; len]; }
+                8 => { let w = len / deg; let v2 = BigUint::from_bytes_le(&bytes[..w]) + &p; let enc = v2.to_bytes_le(); if enc.len() <= w { let mut nb = vec![0u8; w]; nb[..enc.len()].copy_from_slice(&enc); bytes[..w].copy_from_slice(&nb); } }
+                _ => { let i = rng.below(len as u64) as usize; bytes[i] ^= 1 << rng.below(8); }
+            }
+            rep.op("deser_field");
+            let b2 = bytes.clone();
+            let res = guarded(|| -> Option<(D::B, &'static str, usize)> { let mut r: &[u8] = &b2; match kind {
+                "none" => D::B::deserialize_with_flags::<_, EmptyFlags>(&mut r).ok().map(|(v, _)| (v, "none", b2.len() - r.len())),
+                "sw" => D::B::deserialize_with_flags::<_, SWFlags>(&mut r).ok().map(|(v, f)| (v, sw_name(f), b2.len() - r.len())),
+                _ => D::B::deserialize_with_flags::<_, TEFlags>(&mut r).ok().map(|(v, f): (D::B, TEFlags)| (v, if f.is_negative() { "neg" } else { "pos" }, b2.len() - r.len())) } });
+            rep.evaluations += 1;
+            let mut ev = json!({"op": "deser_field", "bytes": bytes_json(&bytes), "kind": kind, "ok": false, "v": [], "flag": "none", "n": 0});
+            match res {
+                Ok(Some((v, f, used))) => { ev["ok"] = json!(true); ev["flag"] = json!(f); ev["n"] = json!(used); match v.to_abs(true) { Ok(j) => ev["v"] = j, Err(e) => ev["panic"] = json!(e) } rep.nontrivial.insert(format!("def:{step}")); }
+                Ok(None) => {}
+                Err(e) => { ev["panic"] = json!(e); }
+            }
+            writeln!(out, "{}", ev).unwrap();
+        }
+    }
+    let _ = D::B::one();
+    rep.transitions = n as u64;
+    rep
+}
